@@ -90,6 +90,7 @@ fn admin_req(cfg: &CfgLine, method: &str, name: Option<&str>, key: Option<&str>,
     Op::Req(Req {
         verb: "POST".into(),
         target: Target::Root,
+        raw: None,
         auth: Some(format!("Bearer {}", cfg.admin.clone().unwrap_or_else(|| "whoever".into())).into_bytes()),
         ct: Some(Enc::Cbor),
         accept: None,
@@ -131,7 +132,7 @@ impl Gen<'_> {
         let n = self.pick_name();
         let fresh = self.fresh();
         let cfg = self.cfg.clone();
-        match self.rng.below(19) {
+        match self.rng.below(20) {
             0..=3 => {
                 let key = if self.rng.chance(2, 3) { Some(self.new_key(&n)) } else { None };
                 out.push(admin_req(&cfg, "db.create", Some(&n), key.as_deref(), &fresh));
@@ -151,13 +152,25 @@ impl Gen<'_> {
                         None // server-generated
                     }
                     7 => self.keys.iter().next().cloned(), // a key that may already be bound elsewhere
-                    8 => Some(if self.rng.chance(1, 2) { " ".to_string() } else { String::new() }),
+                    // blank keys: `trim()` is Unicode-aware (tab, VT, NBSP, EM SPACE …); and one that only looks blank
+                    8 => Some(self.rng.pick(&[" ", "", "\t", " \n\r", "\u{b}\u{c}", "\u{a0}", "\u{2003}\u{3000} ", "\u{85}", "\u{200b}", " k "]).to_string()),
                     _ => cfg.admin.clone(), // the admin key itself
                 };
                 out.push(admin_req(&cfg, "db.set_api_key", Some(&n), key.as_deref(), &fresh));
             }
             13..=15 => out.push(admin_req(&cfg, "db.remove_api_key", Some(&n), None, &fresh)),
             16 => out.push(if self.rng.chance(1, 2) { Op::Restart } else { Op::Crash }),
+            19 => {
+                // the admin switches the PRIMARY read-only (persistence of registry / key map then fails) or back
+                let pvar = if self.rng.chance(2, 3) { "ro" } else { "d" };
+                if let Op::Req(mut r) = admin_req(&cfg, "db.set_read_only", None, None, &fresh) {
+                    r.target = Target::Db { name: PRIMARY.into(), pct: false };
+                    if let Body::Rpc { pvar: p, .. } = &mut r.body {
+                        *p = pvar.into();
+                    }
+                    out.push(Op::Req(r));
+                }
+            }
             17 => {
                 // work inside a database (as the admin): make it dirty, flush it, switch read-only on/off
                 let (m, pvar) = *self.rng.pick(&[("doc.add", "d"), ("doc.add", "d"), ("db.flush", "d"), ("db.set_read_only", "ro"), ("db.set_read_only", "d"), ("collection.set_read_only", "ro"), ("doc.update", "d")]);
@@ -207,11 +220,13 @@ fn matrix(rng: &mut Rng, cfg: &CfgLine, keys: &BTreeSet<String>, tables: &Tables
         Some(format!("Bearer {admin} ").into_bytes()),
         Some(b"Bearer ".to_vec()),
         Some(b"Bearer".to_vec()),
+        Some(format!("Bearer\t{admin}").into_bytes()),
+        Some(format!("Bearer {admin}\t").into_bytes()),
     ];
     for k in keys {
         principals.push(Some(format!("Bearer {k}").into_bytes()));
     }
-    let db_targets: Vec<Target> = vec![
+    let named: Vec<Target> = vec![
         Target::Db { name: NAME_A.into(), pct: false },
         Target::Db { name: NAME_B.into(), pct: false },
         Target::Db { name: NAME_C.into(), pct: false },
@@ -223,16 +238,42 @@ fn matrix(rng: &mut Rng, cfg: &CfgLine, keys: &BTreeSet<String>, tables: &Tables
         Target::BadUtf8("/%ff".into()),
         Target::Unrouted(format!("/{NAME_A}/x")),
     ];
+    let mut db_targets: Vec<(Target, Option<String>)> = named.into_iter().map(|t| (t, None)).collect();
+    // raw request targets: the model routes them itself (`routePath`), the harness resolves them with
+    // its own reading for the oracle. A database name in the QUERY, an encoded slash, partial and
+    // lower-case escapes, malformed escapes, non-ASCII names, truncated / surrogate / overlong UTF-8,
+    // empty and dot segments.
+    for raw in [
+        format!("/{NAME_A}?db_name={NAME_B}&name={NAME_B}&db={NAME_B}&database={PRIMARY}"),
+        format!("/{NAME_B}?{NAME_A}"),
+        format!("/{NAME_A}%2F{NAME_B}"),
+        format!("/%74enant%5fqa7"),
+        format!("/{NAME_A}%"),
+        format!("/{NAME_A}%2"),
+        "/%zz".to_string(),
+        "/%C3%A9t%C3%A9".to_string(),
+        "/%C3".to_string(),
+        "/%ED%A0%80".to_string(),
+        "/%C0%AF".to_string(),
+        "/%F4%90%80%80".to_string(),
+        "//".to_string(),
+        format!("/{NAME_A}/"),
+        "/..".to_string(),
+        format!("/{NAME_A}/../{NAME_B}"),
+    ] {
+        db_targets.push((resolve_raw(&raw), Some(raw)));
+    }
     let root_names: Vec<Option<String>> =
-        vec![Some(NAME_A.into()), Some(NAME_B.into()), Some(NAME_C.into()), Some(PRIMARY.into()), Some(NAME_MISSING.into()), Some(NAME_BAD.into()), Some(String::new()), Some(long_name()), None];
+        vec![Some(NAME_A.into()), Some(NAME_B.into()), Some(NAME_C.into()), Some(PRIMARY.into()), Some(NAME_MISSING.into()), Some(NAME_BAD.into()), Some(String::new()), Some(long_name()), Some("z".repeat(64)), Some("\u{e9}t\u{e9}".into()), Some("Tenant_QA7".into()), None];
     let mut cells: Vec<[Op; 2]> = Vec::new();
-    let mut push = |target: Target, auth: &Option<Vec<u8>>, method: &str, name: Option<String>, key: Option<String>, pvar: &str, fb: &mut u32| {
+    let mut push = |(target, raw): (Target, Option<String>), auth: &Option<Vec<u8>>, method: &str, name: Option<String>, key: Option<String>, pvar: &str, fb: &mut u32| {
         *fb += 1;
         let fresh = format!("$g{}", *fb);
         let mk = |ct| {
             Op::Req(Req {
                 verb: "POST".into(),
                 target: target.clone(),
+                raw: raw.clone(),
                 auth: auth.clone(),
                 ct: Some(ct),
                 accept: None,
@@ -261,7 +302,12 @@ fn matrix(rng: &mut Rng, cfg: &CfgLine, keys: &BTreeSet<String>, tables: &Tables
                     continue;
                 }
                 let key = if (m == "db.create" || m == "db.set_api_key") && rng.chance(1, 2) { Some(format!("km{}_S3c", rng.below(3))) } else { None };
-                push(Target::Root, auth, m, n.clone(), key, "d", fresh_base);
+                push((Target::Root, None), auth, m, n.clone(), key.clone(), "d", fresh_base);
+                if n.as_deref() == Some(NAME_A) && (full || rng.chance(1, 4)) {
+                    // a database name in the query of the ROOT route must not turn it into a database scope
+                    let raw = format!("/?db_name={NAME_A}&name={NAME_B}");
+                    push((Target::Root, Some(raw)), auth, m, n.clone(), key, "d", fresh_base);
+                }
             }
         }
     }
@@ -277,7 +323,7 @@ fn matrix(rng: &mut Rng, cfg: &CfgLine, keys: &BTreeSet<String>, tables: &Tables
             ("GET", Target::Unrouted(format!("/{NAME_A}/{NAME_B}"))),
         ] {
             for accept in [None, Some(Enc::Cbor), Some(Enc::Json)] {
-                out.push(Op::Req(Req { verb: verb.into(), target: target.clone(), auth: auth.clone(), ct: None, accept, body: Body::Malformed }));
+                out.push(Op::Req(Req { verb: verb.into(), target: target.clone(), raw: None, auth: auth.clone(), ct: None, accept, body: Body::Malformed }));
             }
         }
         for t in [Target::Root, Target::Db { name: NAME_A.into(), pct: false }, Target::Db { name: NAME_MISSING.into(), pct: false }] {
@@ -289,7 +335,7 @@ fn matrix(rng: &mut Rng, cfg: &CfgLine, keys: &BTreeSet<String>, tables: &Tables
                 } else {
                     Body::Rpc { method: "info".into(), name: None, key: None, fresh: format!("$g{}", *fresh_base), pvar: "d".into() }
                 };
-                out.push(Op::Req(Req { verb: "POST".into(), target: t.clone(), auth: auth.clone(), ct, accept, body }));
+                out.push(Op::Req(Req { verb: "POST".into(), target: t.clone(), raw: None, auth: auth.clone(), ct, accept, body }));
             }
         }
     }
@@ -404,6 +450,8 @@ pub struct CaseResult {
     /// (sum of ns, count) of rejected `POST /{db}` requests that presented a token, by whether the
     /// addressed database carries a binding (timing is measured, never proved)
     pub reject_ns: [(u128, u64); 2],
+    /// "scope:method:label" -> (requests past authorisation, of which with storage writes, total writes, answered 200)
+    pub method_writes: BTreeMap<String, (u64, u64, u64, u64)>,
 }
 
 impl CaseResult {
@@ -423,6 +471,7 @@ pub fn run_case(lines: &[String], driver: Option<&std::path::Path>, tables: &Tab
     let mut world: Option<wire::World> = None;
     let mut orc = oracle::Oracle::new(tables.clone());
     let mut prev: Option<(Req, wire::ImplResp, String)> = None;
+    let mut wire401_done = [false; 2];
     for (i, line) in lines.iter().enumerate() {
         let Some(op) = Op::parse(line) else {
             res.disagreements.push(("unparsable op line".into(), i, String::new(), line.clone()));
@@ -539,9 +588,71 @@ pub fn run_case(lines: &[String], driver: Option<&std::path::Path>, tables: &Tab
                     if let Some(why) = wire::compare(mo, &canon, r, &resp) {
                         res.disagreements.push((why, i, out.clone(), canon.clone()));
                     }
-                    if mo.contains(" dispatch ") {
-                        res.hit("model:dispatch");
+                    // ---- which branch of the model answered (coverage of the model under the run)
+                    let mw: Vec<&str> = mo.split(' ').collect();
+                    let class = if mw.get(1) == Some(&"dispatch") {
+                        format!("model:dispatch:{}:{}:{}", mw.get(3).unwrap_or(&"?"), mw.get(5).unwrap_or(&"?"), mw.get(6).unwrap_or(&"?"))
+                    } else {
+                        let detail = mw.get(3).map(|d| d.split(':').next().unwrap_or("")).unwrap_or("");
+                        let detail = if mw.get(2) == Some(&"ok") { mw.get(3).copied().unwrap_or("") } else { detail };
+                        format!("model:{}:{}:{}", mw.get(1).unwrap_or(&"?"), mw.get(2).unwrap_or(&"?"), detail)
+                    };
+                    res.hit(&class);
+                    res.hit(&format!("model:as:{}", out.rsplit("as=").next().unwrap_or("?")));
+                    // ---- storage addressing on the database route: the model names the one database a
+                    // handler was reached for (`touchedDb`); every backend access of the request must lie
+                    // under that prefix, and a request that reached no handler must not touch storage.
+                    if r.verb == "POST" && matches!(r.target, Target::Db { .. } | Target::BadUtf8(_) | Target::Unrouted(_)) {
+                        let touched: Option<String> = if mw.get(1) == Some(&"dispatch") { mw.get(2).and_then(|t| dec_str(t)) } else { None };
+                        let bad = match &touched {
+                            Some(n) => resp.writes.iter().chain(resp.reads.iter()).find(|a| !a.path.starts_with(&format!("{n}/"))).map(|a| format!("{} {}", a.op, a.path)),
+                            None => resp.writes.iter().chain(resp.reads.iter()).next().map(|a| format!("{} {}", a.op, a.path)),
+                        };
+                        if let Some(b) = bad {
+                            res.disagreements.push((
+                                "storage addressing differs from the model's touchedDb".into(),
+                                i,
+                                format!("{out} => may touch only {:?}", touched.map(|n| format!("{n}/"))),
+                                format!("{canon} touched {b}"),
+                            ));
+                        }
                     }
+                    // ---- the rejection on the wire: status, complete header set, body bytes
+                    if resp.status == 401
+                        && let Some(e) = wire::resp_enc(&resp)
+                        && !wire401_done[e as usize]
+                    {
+                        wire401_done[e as usize] = true;
+                        let want = m.ask(&format!("wire401 {}", if e == Enc::Cbor { "cbor" } else { "json" }));
+                        let hs: Vec<String> = resp.headers.iter().map(|(k, v)| format!("{k}={v}")).collect();
+                        let got = format!("{} {} {}", resp.status, hs.join(";"), vh_common::hex(&resp.body));
+                        res.hit("model:wire401-compared");
+                        if want != got {
+                            res.disagreements.push(("the rejection on the wire differs from the model's rejectionWire".into(), i, want, got));
+                        }
+                    }
+                }
+                // ---- measured: storage writes per method, for every request that got past authorisation
+                if r.verb == "POST"
+                    && resp.status != 401
+                    && let Some(m) = r.method()
+                    && let Some(scope) = match &r.target {
+                        Target::Root => Some("root"),
+                        Target::Db { .. } => Some("db"),
+                        _ => None,
+                    }
+                {
+                    let known = if scope == "root" { tables.root.get(m) } else { tables.db.get(m) };
+                    let label = match known {
+                        Some((_, true)) => "R",
+                        Some((_, false)) => "M",
+                        None => "-",
+                    };
+                    let e = res.method_writes.entry(format!("{scope}:{}:{label}", if known.is_some() { m } else { "<unknown>" })).or_insert((0, 0, 0, 0));
+                    e.0 += 1;
+                    e.1 += (!resp.writes.is_empty()) as u64;
+                    e.2 += resp.writes.len() as u64;
+                    e.3 += (resp.status == 200) as u64;
                 }
                 prev = Some((r.clone(), resp, canon));
             }
@@ -660,6 +771,7 @@ fn main() {
     let results = results.into_inner().unwrap();
     let mut shrunk_keys: BTreeSet<String> = BTreeSet::new();
     let mut reject_ns = [(0u128, 0u64); 2];
+    let mut method_writes: BTreeMap<String, (u64, u64, u64, u64)> = BTreeMap::new();
     for (i, r) in &results {
         let (name, lines) = &cases[*i];
         for canon in &r.nontrivial {
@@ -672,6 +784,13 @@ fn main() {
             report.hit_n(k, *v);
         }
         report.model_compared += r.model_compared;
+        for (k, v) in &r.method_writes {
+            let e = method_writes.entry(k.clone()).or_insert((0, 0, 0, 0));
+            e.0 += v.0;
+            e.1 += v.1;
+            e.2 += v.2;
+            e.3 += v.3;
+        }
         for k in 0..2 {
             reject_ns[k].0 += r.reject_ns[k].0;
             reject_ns[k].1 += r.reject_ns[k].1;
@@ -707,6 +826,18 @@ fn main() {
         if reject_ns[k].1 > 0 {
             report.measured.insert(label.into(), json!({"mean_ns": (reject_ns[k].0 / reject_ns[k].1 as u128) as u64, "n": reject_ns[k].1,
                 "note": "in-process wall time incl. harness overhead; timing equalisation is only measured, not modelled or proved"}));
+        }
+    }
+    // measured store-write counter per method (label R/M from the regenerated table): Read-labelled
+    // rows must show 0 writes except the known cold-recovery shape, which the oracle keys separately
+    let table: BTreeMap<String, vh_common::serde_json::Value> = method_writes
+        .iter()
+        .map(|(k, v)| (k.clone(), json!({"requests_past_auth": v.0, "answered_200": v.3, "requests_with_writes": v.1, "backend_mutations": v.2})))
+        .collect();
+    report.measured.insert("store_writes_per_method".into(), json!(table));
+    for (k, v) in &method_writes {
+        if k.ends_with(":R") {
+            report.hit_n(&format!("read-labelled-requests-measured:{k}"), v.0);
         }
     }
     report.exhaustive = false;
